@@ -94,7 +94,7 @@ func New(id string) *Check {
 	}
 	if *budget == 0 {
 		if c.Tier == "quick" {
-			*budget = 150 * time.Second
+			*budget = 240 * time.Second
 		} else {
 			*budget = 25 * time.Minute
 		}
